@@ -15,7 +15,7 @@ from vlib.runner import hyp_run
 PROPERTY = 'C13'
 RULE = ('prefix over the unrestricted C12 alphabet, then GET manual-stop, then a continuation of environment events '
         '(accept/refuse late attempts, peer messages/close, ticks, then 10 x 240 s of time), then GET manual-start and a '
-        'cooperative peer; also a stop issued during the start-up delay, before the agent\'s first automatic start. '
+        'cooperative peer; also a stop issued during the start-up delay, before the agent\'s first automatic start, and a stop that follows a start request within the same reactor turn. '
         'Non-trivial = stop issued outside Idle or with an attempt / timer pending; distinct by '
         '(prefix, continuation).')
 ASSUMPTIONS = [
@@ -85,6 +85,10 @@ def run_case(case, explicit=False):
     d.failures = []          # invariants of the prefix are C12's business
     sim, r = d.sim, d.sim.reactor
     # ---------------------------------------------------------------- stop
+    if case.get('start_first'):
+        # the operator's start request is followed by the stop request within the same reactor turn (both REST calls return
+        # before the reactor runs anything they may have queued): the stop is the last word
+        sim.rest('GET', '/v1/peer/%s/manual-start' % sim.config['remote_addr'], settle=False)
     state_before = sim.state
     had_live = bool(d.live())
     pend = bool(r.attempts())
@@ -117,6 +121,8 @@ def run_case(case, explicit=False):
         out.append(('stop:no-close:%s' % state_before, 'stop in %s did not close the live connection' % state_before))
     if sim.state != 'IDLE':
         out.append(('stop:state:%s' % sim.state, 'state after stop is %s' % sim.state))
+    if any(k == 'connectTCP' for _, k, _, _ in tr):
+        out.append(('stop:connect-after-stop', 'a connection attempt was started after the manual-stop request (state before %s)' % state_before))
     if case.get('quick_restart'):
         # the operator starts the peer again at once - before the connectionLost of the stopped connection has been delivered,
         # while late answers may still arrive; environment events follow, then the peer behaves: the session must come up
@@ -272,7 +278,8 @@ def shards(tier):
 def run_shard(spec, seed, col, tier):
     def body(case):
         d, res, info = run_case(case)
-        explicit = {'cfg': info['cfg'], 'prefix': info['prefix'], 'cont': info['cont'], 'quick_restart': bool(case.get('quick_restart'))}
+        explicit = {'cfg': info['cfg'], 'prefix': info['prefix'], 'cont': info['cont'], 'quick_restart': bool(case.get('quick_restart')),
+                    'start_first': bool(case.get('start_first'))}
         col.case(explicit, info['nontrivial'], labels=['crt:%d' % info['cfg']['connect_retry'],
                                                       'stopped-in:' + _stop_state(info)])
         for sig, detail in res:
@@ -280,7 +287,8 @@ def run_shard(spec, seed, col, tier):
     strat = st.fixed_dictionaries({'cfg': st.sampled_from(CONFIGS), 'warm': st.sampled_from(['none', 'none', 'opensent', 'openconfirm', 'established', 'established', 'preboot']),
                                    'prefix_choices': st.lists(st.integers(0, 999), min_size=0, max_size=16),
                                    'cont_choices': st.lists(st.integers(0, 999), min_size=0, max_size=6),
-                                   'quick_restart': st.sampled_from([False, False, True])})
+                                   'quick_restart': st.sampled_from([False, False, True]),
+                                   'start_first': st.sampled_from([False, False, True])})
     hyp_run(col, strat, body, seed, spec['examples'])
 
 
